@@ -1254,3 +1254,7 @@ pub(crate) fn has_transaction_witnesses_set_tag(witness_set: &TransactionWitness
         (false, false) => None,
     }
 }
+
+#[cfg(kani)]
+#[path = "/verif/kani/utils.rs"]
+mod verif_kani_utils;
